@@ -158,3 +158,27 @@ package tglib
 //@ ensures knasenc: ue.KnasEnc == kdfspec.AlgKey(kamf, 0x01, old(ue.CipheringAlg))
 //@ ensures knasint: ue.KnasInt == kdfspec.AlgKey(kamf, 0x02, old(ue.IntegrityAlg))
 //@ assigns &ue.Kamf, &ue.KnasEnc, &ue.KnasInt
+
+// ---- assumed contracts used by the driver-level checks (C19) ----
+// The build-and-encode wrappers end in the reflection-driven NGAP encoder; what they put on the wire
+// is C13 (builders proved, wrappers bounded).  Here they return octets or an error.
+//@ func GetNGSetupRequest
+//@ trusted
+//@ func GetInitialUEMessage
+//@ trusted
+//@ func GetUplinkNASTransport
+//@ trusted
+//@ func GetInitialContextSetupResponse
+//@ trusted
+//@ func GetInitialContextSetupResponseForServiceRequest
+//@ trusted
+//@ func GetPDUSessionResourceSetupResponse
+//@ trusted
+//@ func GetPDUSessionResourceReleaseResponse
+//@ trusted
+//@ func GetUEContextReleaseComplete
+//@ trusted
+//@ func GetNasPdu
+//@ trusted
+//@ func EncodeNasPduWithSecurity
+//@ trusted
